@@ -138,32 +138,65 @@ theorem mem_takeWhile_p {p : Nat → Bool} : ∀ (l : List Nat) (c : Nat), c ∈
       · exact ih c h
     · simp at h
 
-theorem lexstep_dimension (v stop : Cps) (h1 : (v.takeWhile (inRanges digitR)).isEmpty = false)
-    (h2 : plainName (v.dropWhile (inRanges digitR)) = true)
-    (hs : CssVerif.Tok.HeadIn (fun c => inRanges nameStopR c = true) stop) : Step ⟨.dimension, v⟩ stop := by
+theorem dim_split (v : Cps) (h1 : (v.takeWhile (inRanges digitR)).isEmpty = false) :
+    ∃ d ds, v = d :: ds ++ v.dropWhile (inRanges digitR) ∧ ∀ c ∈ d :: ds, CssVerif.Tok.isDigit c = true := by
   have hv : v = v.takeWhile (inRanges digitR) ++ v.dropWhile (inRanges digitR) := (List.takeWhile_append_dropWhile).symm
   have hdig : ∀ c ∈ v.takeWhile (inRanges digitR), CssVerif.Tok.isDigit c = true := by
     intro c hc
     have := mem_takeWhile_p _ c hc
     simpa [inRanges, digitR, CssVerif.Tok.isDigit] using this
-  generalize v.takeWhile (inRanges digitR) = ds at h1 hv hdig
-  generalize v.dropWhile (inRanges digitR) = u at h2 hv
-  subst hv
-  cases ds with
-  | nil => simp at h1
+  cases hds : v.takeWhile (inRanges digitR) with
+  | nil => rw [hds] at h1; simp at h1
   | cons d ds =>
-    apply lexstep_of _ stop "DIMENSION" rfl (by simp)
-    · intro c' t e; simp only [List.cons_append, List.cons.injEq] at e; obtain ⟨rfl, _⟩ := e
-      have := hdig d (by simp)
-      exact CssVerif.Tok.not_fast_of_ranges [(48, 57)] (by decide) _ (by simpa [CssVerif.Tok.inR, CssVerif.Tok.isDigit] using this)
-    · have := CssVerif.Tok.scan_name_dimension true d ds u stop hdig h2 hs
-      simp only [List.append_assoc, List.length_append] at this ⊢
-      exact this
-    · apply valueOf_unesc_id _ _ _ (by decide) (by decide)
-      rw [CssVerif.Tok.unescape_append_plain _ _ (by
-        intro c hc e
-        have := hdig c hc
-        rw [e] at this; revert this; decide), CssVerif.Tok.unescape_name h2]
+    rw [hds] at hv hdig
+    exact ⟨d, ds, hv, hdig⟩
+
+theorem lexstep_dimension (v stop : Cps) (h : (match v with
+      | c :: r =>
+        if c == 43 || c == 45 then
+          !(r.takeWhile (inRanges digitR)).isEmpty && plainName (r.dropWhile (inRanges digitR))
+        else !((c :: r).takeWhile (inRanges digitR)).isEmpty && plainName ((c :: r).dropWhile (inRanges digitR))
+      | [] => false) = true)
+    (hs : CssVerif.Tok.HeadIn (fun c => inRanges nameStopR c = true) stop) : Step ⟨.dimension, v⟩ stop := by
+  cases v with
+  | nil => simp at h
+  | cons c r =>
+    simp only at h
+    split at h
+    · rename_i hsg
+      simp only [Bool.or_eq_true, beq_iff_eq] at hsg
+      simp only [Bool.and_eq_true, Bool.not_eq_true'] at h
+      obtain ⟨d, ds, hr, hdig⟩ := dim_split r h.1
+      generalize r.dropWhile (inRanges digitR) = u at h hr
+      subst hr
+      apply lexstep_of _ stop "DIMENSION" rfl (by simp)
+      · intro c' t e; simp only [List.cons.injEq] at e; obtain ⟨rfl, _⟩ := e
+        rcases hsg with rfl | rfl <;> decide
+      · have := CssVerif.Tok.scan_signed_dimension true c hsg d ds u stop hdig h.2 hs
+        simp only [List.cons_append, List.append_assoc, List.length_cons, List.length_append] at this ⊢
+        rw [this]; congr 1; omega
+      · apply valueOf_unesc_id _ _ _ (by decide) (by decide)
+        have hc92 : c ≠ 92 := by rcases hsg with rfl | rfl <;> decide
+        rw [CssVerif.Tok.unescape_cons_plain c _ hc92, CssVerif.Tok.unescape_append_plain _ _ (by
+          intro x hx e
+          have := hdig x hx
+          rw [e] at this; revert this; decide), CssVerif.Tok.unescape_name h.2]
+    · simp only [Bool.and_eq_true, Bool.not_eq_true'] at h
+      obtain ⟨d, ds, hr, hdig⟩ := dim_split (c :: r) h.1
+      generalize (c :: r).dropWhile (inRanges digitR) = u at h hr
+      rw [hr]
+      apply lexstep_of _ stop "DIMENSION" rfl (by simp)
+      · intro c' t e; simp only [List.cons_append, List.cons.injEq] at e; obtain ⟨rfl, _⟩ := e
+        have := hdig d (by simp)
+        exact CssVerif.Tok.not_fast_of_ranges [(48, 57)] (by decide) _ (by simpa [CssVerif.Tok.inR, CssVerif.Tok.isDigit] using this)
+      · have := CssVerif.Tok.scan_name_dimension true d ds u stop hdig h.2 hs
+        simp only [List.append_assoc, List.length_append] at this ⊢
+        exact this
+      · apply valueOf_unesc_id _ _ _ (by decide) (by decide)
+        rw [CssVerif.Tok.unescape_append_plain _ _ (by
+          intro x hx e
+          have := hdig x hx
+          rw [e] at this; revert this; decide), CssVerif.Tok.unescape_name h.2]
 
 theorem lexstep_s (v stop : Cps) (h1 : v.isEmpty = false) (h2 : v.all (inRanges wsR) = true)
     (hs : CssVerif.Tok.HeadIn (fun c => inRanges wsR c = false) stop) : Step ⟨.s, v⟩ stop := by
@@ -302,9 +335,7 @@ theorem tok_step (t : Tok) (stop : Cps) (hp : t.plain = true)
   case string => exact lexstep_string v stop hp
   case comment => exact lexstep_comment v stop hp
   case number => exact lexstep_number v stop hp (by simpa [Tok.follow] using hs)
-  case dimension =>
-    simp only [Bool.and_eq_true, Bool.not_eq_true'] at hp
-    exact lexstep_dimension v stop hp.1 hp.2 (by simpa [Tok.follow] using hs)
+  case dimension => exact lexstep_dimension v stop hp (by simpa [Tok.follow] using hs)
   case includes => simp only [beq_iff_eq] at hp; subst hp; exact lexstep_fixed _ "INCLUDES" _ 13 rfl (by decide) stop
   case dashmatch => simp only [beq_iff_eq] at hp; subst hp; exact lexstep_fixed _ "DASHMATCH" _ 14 rfl (by decide) stop
   case prefixmatch => simp only [beq_iff_eq] at hp; subst hp; exact lexstep_fixed _ "PREFIXMATCH" _ 15 rfl (by decide) stop
